@@ -159,6 +159,8 @@ void a_pid_fuzzy_out_(a_pid_fuzzy *ctx, a_real ec, a_real e)
             }
             ctx->idx[i] *= ctx->nrule;
         }
+        /* no rule fires (e.g. bounded product of memberships summing below 1): keep the base gains */
+        if (!(inv > 0)) { goto exit; }
         inv = 1 / inv;
     }
     /* mean of centers defuzzifier */
